@@ -295,6 +295,23 @@ pub fn shapes() -> Vec<ProgCase> {
         }
         out.push(mk(format!("deep_out_in_call/{extra}"), format!("proc.f push.1 drop end begin {pushes} call.f end"), input_regime(3), vec!["stack", "overflow"]));
     }
+    // overflow-table histories that end deeper than 16 after the table shrank and grew again: rows that were
+    // popped lie between the surviving rows (the reported overflow addresses must be those of the survivors)
+    for (k, body) in [
+        "push.1 push.2 drop push.3",
+        "push.1 push.2 push.3 drop drop push.4 push.5 drop push.6",
+        "push.1 drop push.2 push.3 drop drop push.4 push.5",
+        "push.1 push.2 swap drop push.3 dup.1 add push.4",
+        "push.1 push.2 push.3 push.4 dropw push.5 push.6 push.7",
+    ]
+    .iter()
+    .enumerate()
+    {
+        for r in [1usize, 2, 3] {
+            out.push(mk(format!("ovf_history/{k}/in{}", [0, 16, 17, 20][r]), format!("begin {body} end"), input_regime(r), vec!["stack", "overflow"]));
+        }
+        out.push(mk(format!("ovf_history_call/{k}"), format!("proc.f push.1 push.2 drop drop end begin {body} call.f push.9 end"), input_regime(3), vec!["stack", "overflow"]));
+    }
     // main-trace dominated: cycle counts around 2^6, 2^7, 2^8 (repeat of 2-cycle bodies)
     for k in [27usize, 28, 29, 30, 31, 32, 58, 59, 60, 61, 62, 63, 64, 122, 123, 124, 125, 126, 127, 128] {
         out.push(mk(format!("main_dominated/{k}"), format!("begin repeat.{k} push.1 drop end end"), vec![], vec!["stack"]));
